@@ -10,7 +10,7 @@ def add(i, cat, tech, text, note, ref): CHECKS[i] = (cat, tech, text, note, ref)
 
 add("C01", "model_checking",
     "exhaustive product enumeration + depth-bounded explicit-state search of instruction sequences on the real Machine, lock-step against REF-ISA",
-    "Every point of the stated per-instruction products (all 8 reg-reg ALU ops x 16 register pairs x all 65 536 value pairs x carry-in in the thorough tier; every other opcode x 256 values x 16 flags x FR upper bits x 4 SPs; 16 x 128 two-byte forms x pointer-set^2 x placements) is executed on the real machine from boundary to boundary and compared with an instruction-level reference; all instruction sequences up to depth 2/3 over a 48-instruction alphabet from 3 start states are compared after every instruction.",
+    "Every point of the stated per-instruction products (all 8 reg-reg ALU ops x 16 register pairs x all 65 536 value pairs x carry-in in the thorough tier; every other opcode x 256 values x 16 flags x FR upper bits x 4 SPs; 16 x 128 two-byte forms x pointer-set^2 x placements) is executed on the real machine from boundary to boundary and compared with an instruction-level reference; all instruction sequences up to depth 2/3 over a 48-instruction alphabet from 3 start states are compared after every instruction (a first-byte STOP is followed by the continue key and the comparison goes on); code executing out of the I/O page (every byte pair in the input registers at PC=0xFC, every byte on the board port at PC=0xF0); the repository's programs, assembled by REF-ASM, in lock-step for up to 1 500 / 20 000 instructions.",
     "Trusted: REF-ISA (statement clauses normative, frozen corners in refmodel/FROZEN.md); I/O side delegated to a real Bus (C10/C14); states with SP>=0xF0 left to C05; sequences longer than the bound and RAM contents outside the pattern family are outside the verdict.",
     "DESIGN.md 3/C01")
 add("C08", "model_checking",
@@ -44,7 +44,7 @@ add("C11", "model_checking",
 
 add("C04", "model_checking",
     "deviation-bounded exhaustive schedule enumeration (0, 1, 2 key presses at every clock edge / every ordered pair in a window) of generated programs on the real Machine, each schedule observed edge by edge against the uninterrupted twin",
-    "For every program of the family (prologue + every body sequence up to length 2/3 over 25 instruction kinds x 3 interrupt routines x 4 register initialisations; + enable-bit-clear, other-MICR-bits and EI-less variants; main programs that are not transparent by construction are left out and counted) the key is pressed before every single clock edge 0..T, and at every ordered pair of edges in a 120-edge window; each run must enter the routine exactly as often as the statement requires, push FR (IE set) and a return address that is a boundary state of the uninterrupted run, have IE clear inside, replay the uninterrupted boundary sequence of the main program, and end with identical registers/flags/SP/outputs/RAM (outside exactly the stack slots written by entry sequences and routines).",
+    "For every program of the family (prologue + every body sequence up to length 2/3 over 25 instruction kinds x 3 interrupt routines x 4 register initialisations; + enable-bit-clear, other-MICR-bits and EI-less variants, + second lives after a cpu/master reset of a machine that had the interrupt enabled and taken; main programs that are not transparent by construction are left out and counted) the key is pressed before every single clock edge 0..T, and at every ordered pair of edges in a 120-edge window; each run must enter the routine exactly as often as the statement requires, push FR (IE set) and a return address that is a boundary state of the uninterrupted run, have IE clear inside, replay the uninterrupted boundary sequence of the main program, and end with identical registers/flags/SP/outputs/RAM (outside exactly the stack slots written by entry sequences and routines).",
     "Trusted: the classification of a press as 'while enabled' (MICR bit and IE at the press, IE still set at the sampling edge); presses in other windows may enter 0 or 1 times; sampling edges are read from the public Signals + wait latch accessor.",
     "DESIGN.md 3/C04")
 
@@ -76,14 +76,14 @@ add("C10", "model_checking",
     "Trusted: REF-BUS; the board behind 0xF0-0xF3 is the real Board on the reference side (C14 checks the board); UART/timer registers have no read-back and are only checked not to leak into anything observable.",
     "DESIGN.md 3/C10")
 add("C14", "model_checking",
-    "explicit-state BFS (depth 3/4) over port writes and external setters on the real Bus/Board against REF-BOARD, states deduplicated on the derived Debug of the real board (not on the reference state); threshold sweeps of every analog input through every DAC level in steps down to 1 ulp; exhaustive enumeration of f32 bit patterns (2^22 quick, all 2^32 thorough) through the three analog setters; all 256 DAC bytes for the fan law",
+    "explicit-state BFS (depth 3/4) over port writes and external setters on the real Bus/Board against REF-BOARD, states deduplicated on the derived Debug of the real board (not on the reference state); threshold sweeps of every analog input through every DAC level in steps down to 1 ulp; exhaustive enumeration of f32 bit patterns (2^22 quick, all 2^32 thorough) through the three analog setters; every byte value at each of the four ports from 5 prior board states followed by every external event; all ordered pairs of control-port writes; all 256 DAC bytes for the fan law",
     "After every operation the status registers 0xF0-0xF3 and the getters named in the statement (stored voltages, DAC outputs, UIO directions, interrupt control) equal REF-BOARD: clamping incl. NaN/inf, DAC = byte/100, comparator bits, jumpers, direction-gated UIO pins, edge interrupts raised exactly on the configured transition of the selected source, flip-flop clearing, fan period = 255 - DAC1 byte.",
     "Trusted: REF-BOARD written from the statement; frozen corners listed in refmodel/FROZEN.md (UOR drives status bits regardless of direction; FAN bit; flip-flop independent of IE). Fan rpm is not compared.",
     "DESIGN.md 3/C14")
 
 add("C07", "model_checking",
     "explicit-state BFS over histories (18 events, depth 7 quick / 10 thorough) of the real Machine, deduplicated on the derived Debug of the whole Machine (so implementation-internal state keeps histories apart); at every distinct node each reset and each follow-up load is executed on a clone and compared with power-on values, an untouched twin and a fresh machine (lock-step)",
-    "cpu_reset: registers/IR/sequencer/pending latches/bus latch/ALU latch/outputs/MICR/state = power-on, RAM/inputs/board/limits/step mode untouched, timer survives and UCR is cleared (Bus-value differentials), whole-Machine equality against a machine rebuilt from public setters for clean histories; master_reset: additionally inputs, timer and the board's outputs cleared, RAM and board inputs untouched; load: RAM = image + zeros, limits applied, load == master reset + image + limits as a whole Machine value; 7 follow-up programs (incl. one that enables every interrupt source and a NOSET program) run 300 edges in lock-step with a new machine; the cpu-side whole-machine comparison is made after every history.",
+    "cpu_reset: registers/IR/sequencer/pending latches/bus latch/ALU latch/outputs/MICR/state = power-on, RAM/inputs/board/limits/step mode untouched, timer survives and UCR is cleared (Bus-value differentials), whole-Machine equality against a machine rebuilt from public setters for clean histories; master_reset: additionally inputs, timer and the board's outputs cleared, RAM and board inputs untouched; load: RAM = image + zeros, limits applied, load == master reset + image + limits as a whole Machine value; 7 follow-up programs (incl. one that enables every interrupt source and a NOSET program) run 300 edges in lock-step with a new machine; the cpu-side whole-machine comparison is made after every history; after the master reset of every history no external stimulus may raise the board's interrupt flags.",
     "Histories bounded by the depth; MISR and the UART send register are outside the statement and not compared.",
     "DESIGN.md 3/C07")
 
@@ -95,7 +95,7 @@ add("C13", "exploration",
 
 add("C12", "model_checking",
     "exhaustive enumeration of run schedules (program x configuration x every budget 0..40/60 x every sub-multiset of interrupt cycles x every sub-multiset of reset cycles from the boundary sets) on the real RunnerConfig::run against a reference loop over the public Machine API; all expectation subsets x match/mismatch for verify(); stdout and exit status of the real binary per invocation",
-    "emulated_cycles and the whole final Machine (PartialEq) equal REF-RUN's for every schedule; RunExpectations::verify is Ok exactly when every stated field matches and reports a stated mismatching field; the binary prints those cycle/state/FE/FF values, accepts every byte value in every spelling of the three radices as an input flag and as an expectation, rejects 256/0x100, and exits non-zero exactly on read, parse or verification failure.",
+    "emulated_cycles and the whole final Machine (PartialEq) equal REF-RUN's for every schedule; RunExpectations::verify is Ok exactly when every stated field matches and reports a stated mismatching field; the binary prints those cycle/state/FE/FF values, accepts every byte value in every spelling of the three radices as an input flag and as an expectation, is independent of the order of positionals, options and --opt=value spellings (all 24 orders), rejects 256/0x100, and exits non-zero exactly on read, parse or verification failure.",
     "Trusted: REF-RUN (the statement's loop); parse/compile are shared with the subject (C02/C03); CLI argument errors only need to exit non-zero without running.",
     "DESIGN.md 3/C12")
 
